@@ -154,6 +154,13 @@ struct Value {
         str = v;
         type = T_STRING;
         if (vlen > 1 && v[0] == '[' && v[vlen - 1] == ']') {
+            // bracketed sub-scripts recurse through parse_args; bound the depth so that hostile input cannot exhaust the stack
+            static int bracket_depth = 0;
+            struct DepthGuard { int& d; DepthGuard(int& d_in) : d(d_in) { ++d; } ~DepthGuard() { --d; } } guard(bracket_depth);
+            if (bracket_depth > 256) {
+                fprintf(stderr, "error: sub-scripts nested too deeply\n");
+                exit(1);
+            }
             CScript s;
             // decompile from Bitcoin Script
             for (auto& it : parse_args(&v[1], vlen - 2)) {
